@@ -418,6 +418,19 @@ func (e *Enc) callExternal(ci ssa.CallInstruction, c *ssa.CallCommon, name strin
 	// ---- errors / fmt
 	case "fmt.Errorf", "errors.New":
 		return []Term{e.nonNilError()}, nil
+	case "errors.Join":
+		// nil exactly when every joined error is nil (documented behaviour); the elements are read from the argument slice
+		r := e.fresh("joined", SIface)
+		if len(args) == 1 && args[0].Sort == SSlice {
+			et := c.Args[0].Type().Underlying().(*types.Slice).Elem()
+			h := e.lookup(e.cur, "E$"+e.tr.typeID(et), ArraySort(SInt, ArraySort(SInt, e.tr.sortOf(et))))
+			ref, ln := App(SInt, "sref", args[0]), App(SInt, "slen", args[0])
+			qv := e.fresh("jk", SInt)
+			allNil := T(fmt.Sprintf("(forall ((%s Int)) (=> (and (<= 0 %s) (< %s %s)) (= (select (select %s %s) %s) (mkiface 0 0))))", qv.S+"q", qv.S+"q", qv.S+"q", ln.S, h.S, ref.S, qv.S+"q"), SBool)
+			e.sc.Assert(Implies(e.curGuard, Eq(Eq(r, nilIface()), allNil)))
+			e.assumed["errors.Join returns nil exactly when every joined error is nil (trusted, documented)"] = true
+		}
+		return []Term{r}, nil
 	case "errors.Is":
 		// errors.Is(err, target): true when err == target; trusted: only the sentinel itself (or a wrapper of it) matches
 		e.sc.DeclareFun("errors_is", []string{SIface, SIface}, SBool)
